@@ -1009,8 +1009,11 @@ cmd_synhist(char *line)
                 char *w = vt_unhex(tok, NULL);
                 wid[i] = fsg_model_word_id(fs->fsg, w);
                 free(w);
-                if (wid[i] < 0)
-                    return -1;
+                if (wid[i] < 0) { /* a word of the grammar just set is unknown to the search's grammar: see below */
+                    fprintf(vt_out, "{\"e\":\"SynHist\",\"t\":%ld,\"entries\":-1,\"missing\":[%ld,%ld,-2]}\n", t, from[i], to[i]);
+                    free(from), free(to), free(fr), free(sc), free(pr), free(wid), free(real);
+                    return 0;
+                }
             }
             if (!NEXT()) return -1;
             fr[i] = atol(tok);
@@ -1037,8 +1040,12 @@ cmd_synhist(char *line)
                         link = l;
                 }
                 if (link == NULL) {
-                    fprintf(stderr, "synhist: the search's grammar has no arc %ld -> %ld word %d\n", from[k], to[k], wid[k]);
-                    return -1;
+                    /* the grammar was set with success just before: the search must hold it.  Recorded, not a script
+                     * error: a search that kept an earlier grammar is what C01 forbids ("the active grammar"). */
+                    fprintf(vt_out, "{\"e\":\"SynHist\",\"t\":%ld,\"entries\":-1,\"missing\":[%ld,%ld,%d]}\n", t, from[k], to[k], wid[k]);
+                    fsg_history_end_frame(h); /* leave the table as the library expects it at the end of a frame */
+                    free(from), free(to), free(fr), free(sc), free(pr), free(wid), free(real);
+                    return 0;
                 }
                 { fsg_pnode_ctxt_t rc1 = all; VT_HIST_ADD(h, link, (int32)fr[k], (int32)sc[k], real[pr[k]], (int32)(k - i), rc1); }
             }
